@@ -47,5 +47,5 @@ Definition bind {S} (f : res S) (g : S -> res S) : res S :=
   end.
 Definition map_res {S T} (h : S -> T) (r : res S) : res T := R (h (r_st r)) (r_ws r) (r_err r).
 
-(* what the oracles supply: float(text) in ticks of 1/8 s, dateutil parse(text) in microseconds *)
+(* what the oracles supply: float(text) in microseconds, dateutil parse(text) in microseconds *)
 Record oracles := { parse_num : str -> option Z; parse_time : str -> option Z }.
